@@ -687,9 +687,16 @@ def sx_call(f, *a, **k):
         return f()
     a0 = a[0] if a else None
     t0 = type(a0)
+    # `import re` inside a function body binds the real module: route its entry points to the symbolic matcher
+    if getattr(f, "__module__", None) == "re" and getattr(_re, getattr(f, "__name__", ""), None) is f:
+        alt = getattr(RX.FakeRe, f.__name__, None)
+        if alt is not None and _deep_sym_in(a):
+            return alt(*a, **k)
     if f is _real_str or f is str:
         if t0 is SymStr:
             return a0
+        if hasattr(a0, "_sx_str_"):
+            return a0._sx_str_()
         if t0 is SymInt:
             return symint_to_str(a0)
         if t0 is SymBool:
